@@ -9,10 +9,11 @@ mkdir -p /tmp/mut; git -C /repo worktree remove --force $wt 2>/dev/null
 git -C /repo worktree add -q --detach $wt HEAD || exit 2
 cd $wt
 demo_env="PYTHONPATH=$wt:/verif/shims PYTHONHASHSEED=0"
-sed "s#/tmp/seed[0-9]*/[A-Z0-9]*#$wt#g" $seed/demo.py > $wt/demo_$name.py
-base=$(env $demo_env timeout 300 /venv/bin/python $wt/demo_$name.py > /tmp/mut/$name.base.log 2>&1; echo $?)
+mkdir -p $wt/seeded/$name
+sed "s#/tmp/seed[0-9]*/[A-Z0-9]*#$wt#g" $seed/demo.py > $wt/seeded/$name/demo.py
+base=$(env $demo_env timeout 300 /venv/bin/python $wt/seeded/$name/demo.py > /tmp/mut/$name.base.log 2>&1; echo $?)
 if ! git apply $seed/patch.diff 2>/tmp/mut/$name.apply.log; then echo "$name: PATCH DOES NOT APPLY"; cat /tmp/mut/$name.apply.log | head -3; cd /; git -C /repo worktree remove --force $wt; exit 3; fi
-mut=$(env $demo_env timeout 300 /venv/bin/python $wt/demo_$name.py > /tmp/mut/$name.mut.log 2>&1; echo $?)
+mut=$(env $demo_env timeout 300 /venv/bin/python $wt/seeded/$name/demo.py > /tmp/mut/$name.mut.log 2>&1; echo $?)
 cd /verif
 out=$(VERIF_REPO=$wt timeout 1500 ./check $pid --tier $tier 2>&1 | grep -E "VIOLATION|KNOWN|$pid $tier" | tail -3)
 echo "$name: demo base=$base mutated=$mut | check: $out"
